@@ -387,17 +387,27 @@ func (s *Session) replayObligation(prop string, o *Obligation) (bool, map[string
 	if od == nil || od.Cover {
 		return false, map[string]interface{}{"note": "obligation not found in the defined-theory rerun"}
 	}
-	assume := append(append([]*Term{}, od.Axioms...), od.Assume...)
-	// bound the storage so that the state can be built
-	for _, k := range sortedKeysT(u.initMem) {
-		if strings.HasPrefix(k, "brk:") || strings.HasPrefix(k, "sbrk:") {
-			assume = append(assume, Le(u.initMem[k], IntLit(48)))
+	baseAssume := append(append([]*Term{}, od.Axioms...), od.Assume...)
+	// bound the storage so that the state can be built; small bounds first — with every shape
+	// integer confined to a few values the nonlinear frame arithmetic is decided by branching
+	qfOnly := false
+	boundsFor := func(cells, objs int64) []*Term {
+		var assume []*Term
+		for _, a := range baseAssume {
+			if !qfOnly || !hasQuantifier(a) {
+				assume = append(assume, a)
+			}
 		}
-		if strings.HasPrefix(k, "obrk:") {
-			assume = append(assume, Le(u.initMem[k], IntLit(6)))
+		for _, k := range sortedKeysT(u.initMem) {
+			if strings.HasPrefix(k, "brk:") || strings.HasPrefix(k, "sbrk:") {
+				assume = append(assume, Le(u.initMem[k], IntLit(cells)))
+			}
+			if strings.HasPrefix(k, "obrk:") {
+				assume = append(assume, Le(u.initMem[k], IntLit(objs)))
+			}
 		}
+		return assume
 	}
-	script := Script(od.Ctx, "ALL", assume, od.Goal, true)
 	// terms to evaluate
 	type want_ struct {
 		key string
@@ -419,8 +429,21 @@ func (s *Session) replayObligation(prop string, o *Obligation) (bool, map[string
 	for _, w := range wants {
 		terms = append(terms, w.t)
 	}
-	vals, status := evalTerms(script, terms, 20)
-	det := map[string]interface{}{"model_status": status, "theory": "defined (arithmetic definitions), storage bounded to 48 cells per element type"}
+	var vals map[string]string
+	status := "unknown"
+	cellsUsed := int64(0)
+	// stage 4 and 5 drop the quantified assumptions (heap contents after append/make/copy): the
+	// shapes found may then be spurious, which the run on the real code decides
+	for _, b := range [][4]int64{{10, 3, 8, 0}, {20, 4, 12, 0}, {48, 6, 20, 0}, {10, 3, 8, 1}, {48, 6, 15, 1}} {
+		qfOnly = b[3] == 1
+		script := Script(od.Ctx, "ALL", boundsFor(b[0], b[1]), od.Goal, true)
+		vals, status = evalTerms(script, terms, int(b[2]))
+		cellsUsed = b[0]
+		if vals != nil {
+			break
+		}
+	}
+	det := map[string]interface{}{"model_status": status, "theory": fmt.Sprintf("defined (arithmetic definitions), storage bounded to %d cells per element type, quantified assumptions dropped: %v", cellsUsed, qfOnly)}
 	if vals == nil {
 		return false, det
 	}
